@@ -38,6 +38,37 @@ def numAFifoR (k : Nat) (buffered : Bool) : NumMachine (AFState Nat) where
     | _ => none
   key s := toString (repr s)
 
+/-- afifo_rst2: per-domain reset levels.  inputs [tw, tr, mw, mr, sink.valid, sink.tok, source.ready, rst_w, rst_r],
+    outputs as afifo. -/
+def numAFifoR2 (k : Nat) (buffered : Bool) : NumMachine (AFState Nat) where
+  init := afInit k 0
+  step s ins :=
+    match ins with
+    | [tw, tr, mw, mr, v, d, r, rw, rr] =>
+      let i : AFIn Nat := { tw := n2b tw, tr := n2b tr, mw := mw, mr := mr, valid := n2b v, tok := d, ready := n2b r }
+      some (afStepR2 k buffered 0 s i (n2b rw) (n2b rr),
+            [b2n (writable k s), b2n (srcValid buffered s), srcTok buffered 0 s])
+    | _ => none
+  key s := toString (repr s)
+
+instance : Repr (CRState Nat) where
+  reprPrec S _ := repr S.f ++ " " ++ repr S.aw ++ " " ++ repr S.ar
+
+/-- cdc_sync: the crossing with real reset synchronisers (flops INIT = 1).
+    inputs [tw, tr, mw, mr, sink.valid, sink.tok, source.ready, a]   (a = raw common reset level)
+    outputs [sink.ready, source.valid, source.tok, reset of the write domain, reset of the read domain, a]. -/
+def numCdcSync (k : Nat) (buffered : Bool) : NumMachine (CRState Nat) where
+  init := { f := afInit k 0, aw := ⟨true, true⟩, ar := ⟨true, true⟩ }
+  step S ins :=
+    match ins with
+    | [tw, tr, mw, mr, v, d, r, a] =>
+      let i : AFIn Nat := { tw := n2b tw, tr := n2b tr, mw := mw, mr := mr, valid := n2b v, tok := d, ready := n2b r }
+      some (crStep k buffered 0 S i (n2b a),
+            [b2n (writable k S.f), b2n (srcValid buffered S.f), srcTok buffered 0 S.f,
+             b2n (arsOut S.aw (n2b a)), b2n (arsOut S.ar (n2b a)), b2n (n2b a)])
+    | _ => none
+  key S := toString (repr S)
+
 /-- Several independent asynchronous FIFOs side by side (`AXILiteClockDomainCrossing`: five channels);
     inputs and outputs are the concatenation of the per-FIFO lists. -/
 def numAFifoMulti (cfg : List (Nat × Bool)) : NumMachine (List (AFState Nat)) where
